@@ -194,6 +194,91 @@ fn schedules(ctx: &Ctx) {
     }
 }
 
+/// Floods: one side submits 500..1000 small vital chunks without waiting for acknowledgements
+/// (more than half the sequence space outstanding, still below the protocol's 1024 limit), the first
+/// datagrams are lost, nothing is duplicated or delayed; then the fair suffix must drain everything.
+#[derive(Clone, Debug, Hash, Serialize, Deserialize)]
+pub struct Flood {
+    pub side: u8,
+    pub n: u16,
+    pub len: u8,
+    pub flush_every: u16,
+    pub lose_first: u8,
+    pub lose_acks: bool,
+    pub peer_sends: u8,
+}
+
+fn run_flood<P: Proto>(f: &Flood, strip: bool) -> PResult {
+    let mut sim: Sim<P> = Sim::new(0xF100D, strip);
+    sim.max_unacked = 1010;
+    sim.max_queued = 250;
+    let side = (f.side & 1) as usize;
+    let step = |sim: &mut Sim<P>, op: Op| -> Result<(), String> {
+        sim.step(&op).and_then(|()| deadline_check(sim)).map_err(|e| format!("{:?}: [{}] {}", op, e.oracle, e.msg))
+    };
+    for op in handshake_prelude() {
+        step(&mut sim, op)?;
+    }
+    // bring the acceptor online as a sender too
+    step(&mut sim, Op::Send { side: 1, vital: true, len: 9, fill: 2 })?;
+    step(&mut sim, Op::Flush { side: 1 })?;
+    step(&mut sim, Op::DeliverAll { dir: 1 })?;
+    step(&mut sim, Op::DeliverAll { dir: 0 })?;
+    for i in 0..f.n {
+        step(&mut sim, Op::Send { side: side as u8, vital: true, len: f.len as u16, fill: i as u8 })?;
+        if f.flush_every > 0 && (i + 1) % f.flush_every == 0 {
+            step(&mut sim, Op::Flush { side: side as u8 })?;
+        }
+    }
+    step(&mut sim, Op::Flush { side: side as u8 })?;
+    for _ in 0..f.lose_first {
+        step(&mut sim, Op::Drop { dir: side as u8, k: 0 })?;
+    }
+    for i in 0..f.peer_sends {
+        step(&mut sim, Op::Send { side: 1 - side as u8, vital: i % 2 == 0, len: 10, fill: i })?;
+    }
+    step(&mut sim, Op::DeliverAll { dir: side as u8 })?;
+    if f.lose_acks {
+        while !sim.net[1 - side].is_empty() {
+            step(&mut sim, Op::Drop { dir: 1 - side as u8, k: 0 })?;
+        }
+    }
+    let unacked = P::summary(&sim.ends[side]).1;
+    match sim.fair_suffix(FAIR_ROUNDS) {
+        Ok(Some(r)) => Ok(Outcome::nt(f.lose_first > 0 || f.lose_acks)
+            .class_if(unacked >= 512, "over_half_the_sequence_space_unacked")
+            .class_if(unacked >= 900, "nine_hundred_plus_unacked")
+            .class_if(r >= 4, "four_plus_rounds")),
+        Ok(None) => {
+            let mut detail = String::new();
+            for s in 0..2 {
+                let (st, un, q, rr) = P::summary(&sim.ends[s]);
+                detail.push_str(&format!(" side{}: {} unacked={} queued={} rr={} delivered_to_peer={}/{};", s, st, un, q, rr, sim.delivered_vital[s], sim.submitted_vital[s].len()));
+            }
+            Err(format!("[liveness] {}: flood of {} chunks ({} unacknowledged) not drained after {} fair rounds:{}", P::NAME, f.n, unacked, FAIR_ROUNDS, detail))
+        }
+        Err(e) => Err(format!("fair suffix after a flood of {} chunks: [{}] {}", f.n, e.oracle, e.msg)),
+    }
+}
+
+fn floods(ctx: &Ctx) {
+    for v in VARIANTS {
+        ctx.prop(
+            &format!("flood/{}", v.name()),
+            ctx.n(40, 2000),
+            || {
+                (0u8..2, prop_oneof![2 => 500u16..=1000, 1 => 511u16..=514, 1 => 1000u16..=1005], 0u8..12, prop_oneof![Just(0u16), Just(1), 2u16..300], 0u8..4, any::<bool>(), 0u8..4)
+                    .prop_map(|(side, n, len, flush_every, lose_first, lose_acks, peer_sends)| Flood { side, n, len, flush_every, lose_first, lose_acks, peer_sends })
+            },
+            |f: &Flood| match v {
+                Variant::V6Token => run_flood::<P6>(f, false),
+                Variant::V6NoToken => run_flood::<P6>(f, true),
+                Variant::V7 => run_flood::<P7>(f, false),
+            },
+        );
+    }
+}
+
 pub fn run(ctx: &Ctx) {
     ctx.set_rule(
         "adversarial prefix = C01-style history (sends of every accepted size incl. the largest, flush, tick, clock advance, \
@@ -205,4 +290,5 @@ pub fn run(ctx: &Ctx) {
     ctx.assume("0.7 acceptor state PendingConnect reports no deadline; measured, not asserted (the connector retransmits)");
     run_all(ctx);
     schedules(ctx);
+    floods(ctx);
 }
